@@ -261,7 +261,14 @@ func (w *writer) body(ind string, stmts []*Stmt) {
 		case "declare":
 			// the grammar takes a value here, not an expression: no parentheses
 			plain := &Layout{}
-			w.emit(ind, "<<declare"+l.spaces()+"$"+s.Var+l.spaces()+l.spell("set")+l.spaces()+plain.Expr(s.E)+">>")
+			val := plain.Expr(s.E)
+			// the optional type clause (`as number`) is accepted by the grammar and means nothing to this interpreter,
+			// whatever the default value is (a literal, a variable, a call): written for two declares out of five
+			as := ""
+			if k := (len(s.Var)*7 + len(val)) % 5; k < 2 {
+				as = " as " + []string{"number", "string", "bool"}[(len(val)+k)%3]
+			}
+			w.emit(ind, "<<declare"+l.spaces()+"$"+s.Var+l.spaces()+l.spell("set")+l.spaces()+val+as+">>")
 		case "jump":
 			// exactly one space after the keyword: the lexer mode that follows `jump ` hides no whitespace (finding F30)
 			sp := " "
